@@ -199,6 +199,53 @@ func gen(g *core.G) {
 		}
 	}
 
+	// (i-def) definitions: the init hashes of Object and TypeSet types with entries of every kind under every key (right and
+	// wrong), in each form a definition can take: bare, as the right side of `type X = ...`, with `[{...}]` and with `{...}`,
+	// and with a parent type in place of `Object`
+	objKeys := []string{"name", "parent", "type_parameters", "attributes", "constants", "functions", "equality", "equality_include_type",
+		"checks", "annotations", "serialization", "bogus"}
+	tsKeys := []string{"pcore_uri", "pcore_version", "name_authority", "name", "version", "types", "references", "annotations", "bogus"}
+	entryVals := []string{"1", "'x'", "x", "true", "undef", "default", "Integer", "Foo", "[]", "[1]", "['a']", "[a, b]", "{}", "{a => 1}", "{a => Integer}",
+		"{a => {type => Integer}}", "{a => {type => 1}}", "{a => {type => Integer, value => 'x'}}", "{a => {type => Integer, kind => bogus}}",
+		"{'a' => 'b'}", "{1 => 2}", "{A => 1}", "{A => Integer}", "{A => Object[{}]}", "{A => {attributes => {x => 1}}}", "/r/", "1.5", "'1.0.0'",
+		"'http://x'", "Object[{}]", "{Ref => {name => 'A::B', version_range => '1.x'}}", "{Ref => {name => 1}}", "{Ref => 1}"}
+	defForms := func(kind, body string) []string {
+		fs := []string{kind + "[{" + body + "}]", "type X = " + kind + "[{" + body + "}]", "type X = " + kind + "{" + body + "}", "type A::B = " + kind + "[{" + body + "}]",
+			"[" + kind + "[{" + body + "}]]"}
+		if kind == "Object" {
+			fs = append(fs, "type X = Integer{"+body+"}", "type X = Foo{"+body+"}", "type X = { "+body+" }", "Object["+body+"]")
+		}
+		return fs
+	}
+	tsBase := "pcore_version => '1.0.0', version => '1.0.0'"
+	for _, v := range entryVals {
+		for _, k := range objKeys {
+			for _, t := range defForms("Object", k+" => "+v) {
+				emit(g, t)
+			}
+		}
+		for _, k := range tsKeys {
+			for _, t := range defForms("TypeSet", k+" => "+v) {
+				emit(g, t)
+			}
+			for _, t := range defForms("TypeSet", tsBase+", "+k+" => "+v) {
+				emit(g, t)
+			}
+		}
+	}
+	for i := 0; i < 300*g.Scale; i++ { // two and three entries at once
+		kind, keys, base := "Object", objKeys, ""
+		if g.Rng.Intn(3) == 0 {
+			kind, keys, base = "TypeSet", tsKeys, tsBase+", "
+		}
+		var es []string
+		for j := 2 + g.Rng.Intn(2); j > 0; j-- {
+			es = append(es, keys[g.Rng.Intn(len(keys))]+" => "+entryVals[g.Rng.Intn(len(entryVals))])
+		}
+		fs := defForms(kind, base+strings.Join(es, ", "))
+		emit(g, fs[g.Rng.Intn(len(fs))])
+	}
+
 	// (ii) every truncation, single-byte deletion and a few insertions of valid expressions
 	nx := 200
 	if g.Thorough() {
